@@ -46,11 +46,11 @@ def relevant_native(pid, h):
     if pid == 'C19':
         return True
     if pid == 'C01':
-        return h.startswith(('type1_', 'full_', 'noindex_', 'combined_'))
+        return h.startswith(('type1_', 'full_', 'noindex_', 'combined_', 'forwarders_'))
     if pid == 'C04':
-        return h.startswith(('type1_', 'full_', 'noindex_', 'lattice_', 'combined_'))
+        return h.startswith(('type1_', 'full_', 'noindex_', 'lattice_', 'combined_', 'forwarders_'))
     if pid == 'C05':
-        return h.startswith('full_')
+        return h.startswith(('full_', 'forwarders_'))
     return False
 
 
@@ -100,11 +100,13 @@ def run(pid, tier):
         confirmed = False
         for pb in kf['playback']:
             flat = [b for vv in pb['vals'] for b in vv]
-            rp = kani.native_replay(unit['binary'], 'combined_view_native', flat)
+            nh = kf['harness'] + '_native' if not kf['harness'].endswith('_native') else kf['harness']
+            nh = {'combined_view': 'combined_view_native', 'forwarders': 'forwarders_native'}.get(kf['harness'], nh)
+            rp = kani.native_replay(unit['binary'], nh, flat)
             if rp['failed'] or rp['rc'] not in (0, 3):
                 for nm in (rp['failed'] or ['no_panic']):
                     out.violation('kani::%s::%s' % (kf['harness'], nm), 'kani (counterexample replayed natively on the real code)', kf['raw'],
-                                  failing_input={'crate': 'idxcheck', 'harness': 'combined_view_native', 'bytes': flat, 'failed_on_real_code': rp['failed'] or ['no_panic']},
+                                  failing_input={'crate': 'idxcheck', 'harness': nh, 'bytes': flat, 'failed_on_real_code': rp['failed'] or ['no_panic']},
                                   replay_transcript=rp['stdout'] + rp['stderr'])
                 confirmed = True
                 break
@@ -201,7 +203,7 @@ def run(pid, tier):
         'checker_cmd': 'verus %s --output-json --time-expanded%s' % (v['path'], ('  &&  cargo kani --harness combined_view (in %s)' % unit['crate']) if k_sel else ''),
         'trusted_base': TRUSTED,
         'explanation': 'obligation = one Verus function of the index unit (all its requires/ensures/loop-invariant/termination queries) that this property depends on'
-                       + (', plus the loop-free Kani harness of the combined view' if k_sel else '')
+                       + (', plus the loop-free Kani harnesses of the combined view and of the &mut T / &T forwarding impls (against arbitrary implementors)' if k_sel else '')
                        + '. Abstract views: hash-vector index = Map<K, Seq<V>> up to per-key concatenation order; full index = Map<K,V>; lattice index = Map<K, Set<V>>. '
                        'The native contract enumerator is a bounded search aid / stand-in and is not counted.',
         'backends': {
@@ -217,7 +219,7 @@ def run(pid, tier):
             'RelIndexReadAll::iter_all of every type (iterator adapter with fn-pointer cast: outside Verus; compared with the reference multimap only in the native enumerator)',
             'RelIndexCombined::iter_all',
             'all concurrent types: CRelIndex, CRelFullIndex, CLatIndex, CRelNoIndex, c_rel_index_combined, freeze/unfreeze and every concurrent-insert clause (no thread support in Kani; Verus would need the code rewritten)',
-            'rel_index_boilerplate forwarding impls for &mut T / &T',
+            'the par-only forwarding impls (CRelIndexRead / CRelIndexReadAll / CRelIndexWrite / CRelFullIndexWrite for &T)',
         ],
         'assumption_scan': v['assumption_scan'],
         'rewrites_applied': summarize_rewrites(log.rewrites),
